@@ -80,6 +80,16 @@ def check(run):
     res = t2check.run_t2(run, n, 30, PARTS, weights=WEIGHTS, rf_weights=RF, extra_programs=extra, starts=('initiate', 'upgrade'))
     cov = common.proof_coverage(r, extra_obligations=1)
     cov.update(cross_seed(run, res['programs']))
+    if res['mismatches']:
+        # a disagreement on the peer-decoded header lists only, after a failing call polluted the encoder, is F-C13-1 (a C13 matter:
+        # the model cannot predict what a fresh decoder makes of those blocks); determinism is still judged by cross_seed above
+        from harness.props import C13
+        f13 = any(f['id'] == 'F-C13-1' for f in common.load_known_findings('C13')[0])
+        keep = [m for m in res['mismatches']
+                if not (f13 and not (set(m['part_ids']) - {13})
+                        and any(v['rule'] == C13.F1 and v['step'] <= m['step'] for v in C13.oracle(res['programs'][m['prog']])))]
+        cov['explained_by_F-C13-1'] = len(res['mismatches']) - len(keep)
+        res['mismatches'] = keep
     if res['mismatches'] and not run.violations:
         t2check.report_mismatch(run, res, PARTS, oracle=None)
     if run.breaks and not run.violations:
